@@ -17,6 +17,7 @@ import (
 	"sort"
 	"strings"
 	"sync"
+	"sync/atomic"
 	"testing"
 	"time"
 
@@ -60,72 +61,6 @@ type c16Schedule struct {
 	Perm     []int `json:"perm"`     // order of the initial attempts (indices into the sorted id list)
 	Choices  []int `json:"choices"`  // picks among parked follow-up attempts
 	Parallel int   `json:"parallel"` // attempts allowed to run at once (1 = serial)
-}
-
-// genChainScenario builds an npm universe in which every relaxation of the single direct
-// dependency "top" to its next major version trades the vulnerable libraries of one
-// version for those of the next: top@k.0.0 depends on a generated set of 0..2 vulnerable
-// libraries. This gives deep chains of follow-up attempts ("patch the introduced
-// vulnerabilities as well"), several of them spawned at once.
-func genChainScenario(t *rapid.T) universe.Scenario {
-	libs := []string{"liba", "libb", "libc", "libd", "libe"}
-	tops := []string{"top"}
-	if rapid.Bool().Draw(t, "two_tops") {
-		// two direct dependencies with their own chains: two initial attempts whose results
-		// both spawn follow-up attempts
-		tops = append(tops, "side")
-	}
-	var schema []string
-	var deps []universe.Requirement
-	used := map[string]bool{}
-	for ti, top := range tops {
-		n := rapid.IntRange(3, 6).Draw(t, "chain_versions")
-		schema = append(schema, top)
-		for k := 1; k <= n; k++ {
-			schema = append(schema, fmt.Sprintf("  %d.0.0", k))
-			var set []string
-			switch {
-			case k == 1:
-				// the two tops start from different libraries, so there are two initial vulnerabilities
-				set = []string{libs[(ti*2+rapid.IntRange(0, 1).Draw(t, "lib1"))%len(libs)]}
-			case k == n:
-				// the last version is clean
-			default:
-				m := rapid.IntRange(0, 2).Draw(t, "n_libs")
-				for i := 0; i < m; i++ {
-					l := rapid.SampledFrom(libs).Draw(t, "lib")
-					dup := false
-					for _, x := range set {
-						dup = dup || x == l
-					}
-					if !dup {
-						set = append(set, l)
-					}
-				}
-			}
-			for _, l := range set {
-				used[l] = true
-				schema = append(schema, fmt.Sprintf("    %s@^1.0.0", l))
-			}
-		}
-		deps = append(deps, universe.Requirement{Name: top, Req: "^1.0.0"})
-	}
-	var vulns []universe.OSV
-	for i, l := range libs {
-		schema = append(schema, l, "  1.0.0")
-		if used[l] {
-			vulns = append(vulns, universe.OSV{ID: fmt.Sprintf("OSV-2024-%d", i+1), Affected: []universe.OSVAffected{{
-				Package: universe.OSVPackage{Ecosystem: "npm", Name: l},
-				Ranges:  []universe.OSVRange{{Type: "SEMVER", Events: []universe.OSVEvent{{Introduced: "0"}}}},
-			}}})
-		}
-	}
-	return universe.Scenario{
-		Universe: universe.Universe{System: universe.NPM, Schema: schema},
-		Manifest: universe.Manifest{System: universe.NPM, Name: "verif-root", Version: "1.0.0", Deps: deps},
-		Vulns:    vulns,
-		Levels:   universe.Levels{Default: "major"},
-	}
 }
 
 // snVer is a version "maj.min.0" of the shared-node family.
@@ -542,7 +477,7 @@ func genC16PatchScenario(t *rapid.T) c16PatchCase {
 	if fam := rapid.IntRange(0, 3).Draw(t, "family"); fam <= 1 {
 		var c c16PatchCase
 		if fam == 0 {
-			c.Scenario = genChainScenario(t)
+			c.Scenario = universe.GenChainScenario(t, universe.ChainConfig{})
 		} else {
 			c.Scenario = genSharedNodeScenario(t)
 		}
@@ -582,6 +517,8 @@ type gate struct {
 	parked  []*attempt
 	running int
 	done    bool
+	stuck   bool  // set by the watcher: nothing runs, nothing is parked, and the computation does not return
+	events  int64 // attempts parked, released and completed so far
 	order   []string // ids in release order
 	exits   []string // ids in completion order
 }
@@ -592,6 +529,7 @@ func (g *gate) Enter(ids []string) {
 	a := &attempt{ids: strings.Join(ids, ","), released: make(chan struct{})}
 	g.mu.Lock()
 	g.parked = append(g.parked, a)
+	g.events++
 	g.cond.Broadcast()
 	g.mu.Unlock()
 	<-a.released
@@ -600,6 +538,7 @@ func (g *gate) Enter(ids []string) {
 func (g *gate) Exit(ids []string) {
 	g.mu.Lock()
 	g.running--
+	g.events++
 	g.exits = append(g.exits, strings.Join(ids, ","))
 	g.cond.Broadcast()
 	g.mu.Unlock()
@@ -612,7 +551,54 @@ func yield() {
 	}
 }
 
+// stuckSeen is set once a computation was found waiting with nothing left to wait for: the
+// next ones (shrinking, the other schedules) are given up sooner.
+var stuckSeen atomic.Bool
+
+// watch reports, through g.stuck, a computation that has nothing to wait for and still does
+// not return: no attempt is running, none is parked at the gate (so none can start), and
+// this has been so, without any attempt arriving, for the whole hang limit. The state is
+// the harness's own; the clock only says how long it has lasted, and the only work left in
+// that state is the collector's sort of the results it already has.
+func (g *gate) watch(stop <-chan struct{}) {
+	tick := time.NewTicker(250 * time.Millisecond)
+	defer tick.Stop()
+	var idleSince time.Time
+	var idleAt int64 = -1
+	for {
+		select {
+		case <-stop:
+			return
+		case <-tick.C:
+		}
+		g.mu.Lock()
+		idle := !g.done && g.running == 0 && len(g.parked) == 0
+		n := g.events
+		g.mu.Unlock()
+		if !idle || n != idleAt {
+			idleSince, idleAt = time.Now(), n
+			if !idle {
+				idleAt = -1
+			}
+			continue
+		}
+		limit := ev.HangLimit
+		if stuckSeen.Load() {
+			limit = 20 * time.Second
+		}
+		if time.Since(idleSince) >= limit {
+			stuckSeen.Store(true)
+			g.mu.Lock()
+			g.stuck = true
+			g.cond.Broadcast()
+			g.mu.Unlock()
+			return
+		}
+	}
+}
+
 type schedResult struct {
+	stuck   bool
 	patches []result.Patch
 	ids     []string
 	err     error
@@ -633,6 +619,9 @@ func runSchedule(w *universe.World, cl resolve.Client, path string, ro options.R
 		g.mu.Unlock()
 		resCh <- schedResult{patches: p, ids: ids, err: err}
 	}()
+	stop := make(chan struct{})
+	defer close(stop)
+	go g.watch(stop)
 	par := s.Parallel
 	if par < 1 {
 		par = 1
@@ -654,8 +643,13 @@ func runSchedule(w *universe.World, cl resolve.Client, path string, ro options.R
 	ci := 0
 	for {
 		g.mu.Lock()
-		for !(g.done || (len(g.parked) > 0 && g.running < par)) {
+		for !(g.done || g.stuck || (len(g.parked) > 0 && g.running < par)) {
 			g.cond.Wait()
+		}
+		if g.stuck && !g.done {
+			r := schedResult{stuck: true, order: g.order, exits: g.exits}
+			g.mu.Unlock()
+			return r
 		}
 		if g.done {
 			g.mu.Unlock()
@@ -695,6 +689,7 @@ func runSchedule(w *universe.World, cl resolve.Client, path string, ro options.R
 		a := g.parked[pick]
 		g.parked = append(g.parked[:pick], g.parked[pick+1:]...)
 		g.running++
+		g.events++
 		g.order = append(g.order, a.ids)
 		g.mu.Unlock()
 		close(a.released)
@@ -756,9 +751,18 @@ func propC16Patch(c c16PatchCase) (ev.Outcome, error) {
 		cl = failingClient{Client: w.Client, name: c.FailVersions}
 		o.Classes = append(o.Classes, "patch_client_fails_for_one_package")
 	}
-	// reference: the plain (ungated) computation
-	ref, ids, err := verifhooks.AllPatches(context.Background(), w.Scenario.Strategy(), cl, w.Matcher, w.System,
-		scalibrfs.DirFS(filepath.Dir(path)), filepath.Base(path), ptr(mkOpts()), nil)
+	// reference: the serial computation, attempts started one at a time in the order they
+	// ask to start (behind the gate, so that a computation that stops making progress is seen
+	// rather than waited for)
+	stuckErr := func(r schedResult, s c16Schedule) error {
+		return fmt.Errorf("the patch computation does not return under schedule %+v: no patch attempt is running and none is waiting to start, yet it keeps waiting for a result (attempts started %v, completed %v)", s, r.order, r.exits)
+	}
+	serial := c16Schedule{Parallel: 1}
+	r0 := runSchedule(w, cl, path, mkOpts(), nil, serial)
+	if r0.stuck {
+		return o, stuckErr(r0, serial)
+	}
+	ref, ids, err := r0.patches, r0.ids, r0.err
 	if err != nil || w.Client.Exceeded() {
 		o.Classes = append(o.Classes, "patch_scenario_unusable")
 		return o, nil
@@ -820,6 +824,9 @@ func propC16Patch(c c16PatchCase) (ev.Outcome, error) {
 	}
 	for _, s := range scheds {
 		r := runSchedule(w, cl, path, mkOpts(), ids, s)
+		if r.stuck {
+			return o, stuckErr(r, s)
+		}
 		if r.err != nil {
 			return o, fmt.Errorf("patch computation failed under schedule %+v: %v", s, r.err)
 		}
